@@ -76,6 +76,11 @@ def make_start(seed, lead, K, N, start, tag):
         r = A.rng(seed, 'near_uniform', lead, K, N, tag)
         a = 1.0 / K + 1e-5 * r.uniform(-1, 1, size=lead + (K, N))
         return a / a.sum(-2, keepdims=True)
+    if start == 'near_empty':
+        # a soft start in which the last class holds a share of about 1e-4 of every observation
+        a = A.soft_affiliation(seed, lead, K, N, 'start', tag)
+        a[..., K - 1, :] *= 1e-4
+        return a / a.sum(-2, keepdims=True)
     raise ValueError(start)
 
 
